@@ -338,6 +338,15 @@ def impl_apply(t, op: dict) -> None:
     if k == "set_value":
         v, s = op["cell"]
         t.set_value((op["x"], op["y"]), v, style=s)
+    elif k == "set_cell" and op.get("from_read"):
+        x, y = op["x"], op["y"]
+        if op["from_read"] == "Row.traverse":
+            c = next(iter(t.get_row(y).traverse(start=x, end=x)))
+        elif op["from_read"] == "Row.get_cells":
+            c = t.get_row(y).get_cells((x, max(x, t.width - 1)))[0]
+        else:
+            c = t.get_cells((x, y, x, y))[0][0]
+        t.set_cell((x, y), c)
     elif k == "set_cell":
         t.set_cell((op["x"], op["y"]), mk_cell(op["cell"], op.get("rep", 1)))
     elif k == "set_row":
@@ -662,6 +671,13 @@ def gen_op(rng, g: Grid) -> dict:
     rep = rng.choice(REPS)
     if k == "set_value":
         return {"op": k, "x": x, "y": y, "cell": gen_payload(rng)}
+    if k == "set_cell" and W and H and rng.random() < 0.25:
+        # read - push back: the Cell object handed to set_cell is the one a RANGED read starting at x returned for (x, y) ("copies
+        # are returned, use set_cell() to push them back"): it stands for one cell, whatever run it was read from
+        y0 = rng.randrange(H)
+        x0 = rng.randrange(len(g.rows[y0])) if g.rows[y0] else None          # a cell the row stores (a ranged read yields stored cells only)
+        if x0 is not None:
+            return {"op": k, "x": x0, "y": y0, "cell": g.rows[y0][x0], "rep": 1, "from_read": rng.choice(["Row.traverse", "Row.get_cells", "Table.get_cells"])}
     if k in ("set_cell", "insert_cell", "append_cell"):
         # often the very cell (payload, repeat) of the previous cell operation again: with argument objects pooled (POOL) the caller
         # then hands over the SAME Cell object to two successive calls
